@@ -32,6 +32,14 @@ def gen_cases(tier, seed):
         wk = rnd.choice(["chain2", "mvchain2", "fanin2"]) if multi else rnd.choice(["mm1", "mm1", "mv1", "chain2", "mvchain2"])
         d = gs.gen_spec(rnd, wk, levels=rnd.choice([2, 2, 3]),
                         size_class="tight" if relax in ("bigger_memory", "memory_inf") else None)
+        if relax == "imperfect":
+            # every perfect factor (the square root of a square bound in particular) must stay reachable when imperfect
+            # factorisation is switched on; tight buffers make intermediate tile sizes the optimum
+            d = gs.gen_spec(rnd, rnd.choice(["mm1", "mm1", "mv1"]), levels=2, size_class="tight")
+            for rv in d["workload"]["ranks"]:
+                d["workload"]["ranks"][rv] = rnd.choice([4, 9, 16, 4, 9, 6, 12, 25])
+            sizes = sorted(gs.tensor_sizes(d["workload"]).values())
+            d["arch"]["mems"][1]["size"] = rnd.randint(max(2, sizes[0] // 4), max(3, sizes[-1])) * d["workload"]["bits"]
         if relax == "smaller_keep":
             d["arch"]["mems"][1]["keep"] = rnd.choice(["Inputs", "Outputs", "~MainMemory | Inputs", "All"]) if len(d["workload"]["einsums"]) == 1 else "~MainMemory | Inputs"
         if relax == "larger_may_keep":
